@@ -32,6 +32,15 @@ func c03Seal(op []string) ([]byte, error) {
 	key := envTok(op[1])
 	inf := envInformator{salt: int64(envU64(op[2])), sid: int64(envU64(op[3])), seq: int32(uint32(envU64(op[5]))), key: key}
 	e := &messages.Encrypted{Msg: envTok(op[7]), MsgID: int64(envU64(op[4]))}
+	if len(op) == 9 {
+		// the struct's AuthKeyHash field as the caller filled it in ("own" = the hash of this key):
+		// the key id written must be that of the key the packet is encrypted with, whatever it holds
+		if op[8] == "own" {
+			e.AuthKeyHash = envSha1(key)[12:20]
+		} else {
+			e.AuthKeyHash = envTok(op[8])
+		}
+	}
 	return e.Serialize(inf, op[6] == "1")
 }
 
@@ -68,7 +77,7 @@ func c03Exec(op []string) string {
 func c03Exec1(op []string) string {
 	switch op[0] {
 	case "c03.seal":
-		if len(op) != 8 {
+		if len(op) != 8 && len(op) != 9 {
 			return "bad-op"
 		}
 		pkt, err := c03Seal(op)
@@ -292,6 +301,10 @@ func c03EmitLen(g *G, l int, tag string) {
 		g.Emit(fmt.Sprintf("c03.seal %s %d %d %d %d %s %s", c03KeyTok(g), c03U64(g), c03U64(g), c03U64(g), c03Seq(g), ack, c03BodyTok(g, l)),
 			"seal", tag, fmt.Sprintf("seal-residue=%d", l%16))
 	}
+	// the same with the AuthKeyHash field filled in: correct, stale (another key's), of a wrong length
+	akh := []string{"own", hexD(r.Bytes(8)), hexD(r.Bytes(r.Pick(0, 4, 20)))}[r.Intn(3)]
+	g.Emit(fmt.Sprintf("c03.seal %s %d %d %d %d %d %s %s", c03KeyTok(g), c03U64(g), c03U64(g), c03U64(g), c03Seq(g), r.Intn(2), c03BodyTok(g, l), akh),
+		"seal", "seal-with-keyhash-field", tag)
 	g.Emit(fmt.Sprintf("c03.open %s %d %d %d %d %s %s", c03KeyTok(g), c03U64(g), c03U64(g), c03ServerMid(g), c03Seq(g), c03BodyTok(g, l), c03PadFor(g, l)),
 		"open", tag, fmt.Sprintf("open-residue=%d", l%16))
 	_ = r
